@@ -239,15 +239,19 @@ def fill_deck(rnd, depth=1, reuse=False, spelling=None, inner='slab', nsym=3, em
             set_fill(fc, u + 1, level + 1)
 
     def set_fill(c, u, level):
-        sp = spelling or rnd.choice(['none', 'disp', 'num', 'full', 'star', 'trcl', 'trcl+fill'])
+        sp = spelling or rnd.choice(['none', 'disp', 'num', 'full', 'star', 'trcl', 'trcl+fill', 'starnum'])
         c.fill = u
         if sp == 'disp':
             c.filltr = rand_tr(rnd, 'f%d' % c.id, pre, rot=False, budget=bud)
-        elif sp == 'num':
+        elif sp in ('num', 'starnum'):
             num = 10 + c.id
             t = rand_tr(rnd, 't%d' % c.id, pre, budget=bud)
+            if sp == 'starnum' and len(t) == 3:
+                t = t + list(rnd.choice(_rot.quick_set()[1:])[1])
             d.trs[num] = (t, False)
             c.filltr = num
+            if sp == 'starnum':
+                c.fillstar = True       # *FILL=n (k): the star concerns entries given in place, not a TR card
         elif sp == 'full':
             t = rand_tr(rnd, 'f%d' % c.id, pre, budget=bud)
             if len(t) == 3:
@@ -449,10 +453,17 @@ def lattice_deck(rnd, dims=2, nsym=3, variant='array', skew=False, cellform='pla
         else:
             s_hi = dk.Surf(sid + 1, ax, [hi])
             s_lo = dk.Surf(sid + 2, ax, [lo])
+        anti = (not (skew and ax == axes[0] and dims >= 2)) and rnd.random() < 0.25
+        if anti:
+            # the lower plane written with the opposite normal (-x = -lo): the cell is on its negative side too
+            k_ = 'xyz'.index(ax[1])
+            mlo = -(lo if isinstance(lo, RatFn) else RatFn.const(lo))
+            mlo = mlo.as_const() if mlo.as_const() is not None else mlo
+            s_lo = dk.Surf(sid + 2, 'p', [Fr(-1) if i_ == k_ else Fr(0) for i_ in range(3)] + [mlo])
         sid += 2
         d.surfs += [s_hi, s_lo]
         # cell lies between: negative side of hi, positive side of lo; listing order decides the index direction
-        pair = [('s', -s_hi.id), ('s', s_lo.id)]
+        pair = [('s', -s_hi.id), ('s', -s_lo.id if anti else s_lo.id)]
         if rnd.random() < 0.5:
             pair.reverse()
         leaves += pair
@@ -514,7 +525,27 @@ def lattice_deck(rnd, dims=2, nsym=3, variant='array', skew=False, cellform='pla
         d.lattice_opt = ['2,' + ','.join('%d:%d' % r for r in ranges)]
     d.cells.insert(1, lat)
     outside = ('s', 50)
-    if second:
+    if second == 'same' and cellform == 'planes':
+        # a second lattice on the SAME surfaces listed in another order (other index axes / directions)
+        prs = [list(leaves[2 * i:2 * i + 2]) for i in range(len(leaves) // 2)]
+        if len(prs) > 1:
+            prs = prs[1:] + prs[:1]
+        if len(prs) == 1 or rnd.random() < 0.5:
+            prs[0].reverse()
+        leaves2 = [l for pr in prs for l in pr]
+        d.surfs.append(dk.Surf(70, 's', [Fr(30), Fr(0), Fr(0), Fr(2)]))
+        d.cells.append(dk.Cell(3, ('s', -70), imp=1, fill=6, filltr=[Fr(30), Fr(0), Fr(0)]))
+        nm += 1
+        d.mats[nm] = [('13027', '1.0')]
+        lat2 = dk.Cell(4, ('and',) + tuple(leaves2), mat=nm, rho='-8.0', imp=1, u=6, lat=1)
+        r2 = [(0, 1)] + [(0, 0)] * (len(ranges) - 1)
+        lat2.fill = dk.LatFill(r2, rnd.choice([[1, 6], [6, 1], [2, 6]]))
+        if variant != 'array':
+            d.lattice_opt.append('4,' + ','.join('%d:%d' % r for r in r2))
+            lat2.fill = 1
+        d.cells.append(lat2)
+        outside = ('and', ('s', 50), ('s', 70))
+    elif second:
         # a second, different lattice in the same deck (same number of index ranges, other pitch)
         d.surfs.append(dk.Surf(70, 's', [Fr(30), Fr(0), Fr(0), Fr(2)]))
         d.surfs += [dk.Surf(71, 'px', [Fr(245, 8)]), dk.Surf(72, 'px', [Fr(235, 8)])]
@@ -534,6 +565,8 @@ def lattice_deck(rnd, dims=2, nsym=3, variant='array', skew=False, cellform='pla
         outside = ('and', ('s', 50), ('s', 70))
     d.cells.append(dk.Cell(99, outside, imp=0))
     d.dot_spelling = rnd.random() < 0.25
+    d.fill_shorthand = rnd.random() < 0.4          # 3 3 3 -> 3 2r in the FILL array
+    d.opts_order = rnd.randint(1, 10 ** 6) if rnd.random() < 0.5 else None      # cell options in another order
     return d, pre
 
 
@@ -563,12 +596,32 @@ def hex_deck(rnd, shape='near-regular', axis='z', dims=2, nsym=2, cellform='plan
     cx = bud.num('cx', pre, choices=[0, Fr(1, 2)])
     cy = bud.num('cy', pre, choices=[0, -1])
     hexref._Nominal.NOMINAL = {'s': 1, 'cx': 0, 'cy': 0}
-    perm = {'z': (0, 1, 2), 'x': (1, 2, 0), 'y': (2, 0, 1)}[axis]          # in-plane (u, v) and axial w -> coordinates
+    perm = {'z': (0, 1, 2), 'x': (1, 2, 0), 'y': (2, 0, 1), 't': (0, 1, 2)}[axis]   # in-plane (u, v) and axial w -> coordinates
+    # axis 't': a prism axis that is not a coordinate axis, with a rational orthonormal frame
+    TILT = ((Fr(1), Fr(0), Fr(0)), (Fr(0), Fr(3, 5), Fr(4, 5)), (Fr(0), Fr(-4, 5), Fr(3, 5)))
 
     def to3(u, v, w):
+        if axis == 't':
+            def lin(k_):
+                tot = None
+                for c_, e_ in ((u, TILT[0][k_]), (v, TILT[1][k_]), (w, TILT[2][k_])):
+                    if e_ == 0:
+                        continue
+                    term = (c_ * RatFn.const(e_)) if isinstance(c_, RatFn) else Fr(c_) * e_
+                    if tot is None:
+                        tot = term
+                    else:
+                        tot = (tot if isinstance(tot, RatFn) else RatFn.const(tot)) + (term if isinstance(term, RatFn) else RatFn.const(term))
+                if tot is None:
+                    return Fr(0)
+                if isinstance(tot, RatFn) and tot.as_const() is not None:
+                    return tot.as_const()
+                return tot
+            return [lin(0), lin(1), lin(2)]
         out = [None, None, None]
         out[perm[0]], out[perm[1]], out[perm[2]] = u, v, w
         return out
+    inplane = {}
     sides = []
     for i in range(6):
         (x1, y1), (x2, y2) = verts[i], verts[(i + 1) % 6]
@@ -581,6 +634,7 @@ def hex_deck(rnd, shape='near-regular', axis='z', dims=2, nsym=2, cellform='plan
         off = CX * RatFn.const(nu) + CY * RatFn.const(nv) + S * RatFn.const(dd)
         off = off.as_const() if off.as_const() is not None else off
         sides.append((to3(Fr(nu), Fr(nv), Fr(0)), off))
+        inplane[i] = (Fr(nu), Fr(nv))
     if cellform == 'rhp':
         return _hex_rhp_deck(rnd, d, pre, bud, verts, scale, cx, cy, to3, axis)
     # listing order: opposite pairs are (i, i+3); pick the first pair, its orientation, the second pair, ...
@@ -596,19 +650,32 @@ def hex_deck(rnd, shape='near-regular', axis='z', dims=2, nsym=2, cellform='plan
         order[4], order[5] = order[5], order[4]
     leaves = []
     sid = 0
+    flipped = set()
     for k in order:
         sid += 1
         nrm, off = sides[k]
-        d.surfs.append(dk.Surf(sid, 'p', nrm + [off]))
-        leaves.append(('s', -sid))
+        if rnd.random() < 0.3:
+            # the same plane written with the opposite normal: the cell is on its POSITIVE side
+            moff = -(off if isinstance(off, RatFn) else RatFn.const(off))
+            moff = moff.as_const() if moff.as_const() is not None else moff
+            d.surfs.append(dk.Surf(sid, 'p', [-x for x in nrm] + [moff]))
+            leaves.append(('s', sid))
+            flipped.add(k)
+        else:
+            d.surfs.append(dk.Surf(sid, 'p', nrm + [off]))
+            leaves.append(('s', -sid))
     if dims == 3:
         lo = bud.num('zl', pre, choices=[-1, Fr(-1, 2)])
         h = bud.num('zh', pre, positive=True, choices=[2, Fr(3, 2)])
         hi = (lo if isinstance(lo, RatFn) else RatFn.const(lo)) + (h if isinstance(h, RatFn) else RatFn.const(h))
         hi = hi.as_const() if hi.as_const() is not None else hi
-        mn = 'p' + axis
-        d.surfs.append(dk.Surf(7, mn, [hi]))
-        d.surfs.append(dk.Surf(8, mn, [lo]))
+        if axis == 't':
+            d.surfs.append(dk.Surf(7, 'p', list(TILT[2]) + [hi]))
+            d.surfs.append(dk.Surf(8, 'p', list(TILT[2]) + [lo]))
+        else:
+            mn = 'p' + axis
+            d.surfs.append(dk.Surf(7, mn, [hi]))
+            d.surfs.append(dk.Surf(8, mn, [lo]))
         tail = [('s', -7), ('s', 8)]
         if rnd.random() < 0.5:
             # the other way round: index k increases across the first of the two (plane 8, downwards)
@@ -627,7 +694,7 @@ def hex_deck(rnd, shape='near-regular', axis='z', dims=2, nsym=2, cellform='plan
             size *= hi_ - lo_ + 1
     d.mats = {1: [('13027', '1.0')], 2: [('13027', '1.0')], 3: [('1001', '2'), ('8016', '1')], 4: [('13027', '1.0')]}
     d.cells.append(dk.Cell(11, ('or', ('s', -50), ('s', 50)), mat=1, rho='-1.0', imp=1, u=1))
-    d.surfs.append(dk.Surf(62, 's', [Fr(0), Fr(0), Fr(0), Fr(1, 2)]))
+    d.surfs.append(dk.Surf(62, 's', [Fr(0), Fr(0), Fr(0), Fr(2) if axis == 't' else Fr(1, 2)]))   # tilted prisms: a filler that certainly reaches into the cell
     d.cells.append(dk.Cell(12, ('s', -62), mat=2, rho='-2.0', imp=1, u=2))
     d.cells.append(dk.Cell(22, ('s', 62), mat=3, rho='0.1', imp=1, u=2))
     pool = [1, 2, 0, 5]
@@ -647,10 +714,15 @@ def hex_deck(rnd, shape='near-regular', axis='z', dims=2, nsym=2, cellform='plan
         for j, k in enumerate(order):
             nrm, _off = sides[k]
             (x1, y1) = verts[k]
-            nu, nv = nrm[perm[0]], nrm[perm[1]]
+            nu, nv = inplane[k]
             dd = nu * x1 + nv * y1
-            d.surfs.append(dk.Surf(71 + j, 'p', nrm + [nu * c2[0] + nv * c2[1] + s2 * dd]))
-            leaves2.append(('s', -(71 + j)))
+            off2 = nu * c2[0] + nv * c2[1] + s2 * dd
+            if k in flipped:
+                d.surfs.append(dk.Surf(71 + j, 'p', [-x for x in nrm] + [-off2]))
+                leaves2.append(('s', 71 + j))
+            else:
+                d.surfs.append(dk.Surf(71 + j, 'p', nrm + [off2]))
+                leaves2.append(('s', -(71 + j)))
         if dims == 3:
             leaves2 += tail
         d.surfs.append(dk.Surf(70, 's', to3(Fr(30), Fr(0), Fr(0)) + [Fr(4)]))
